@@ -221,7 +221,7 @@ def iterItems : Val → Except Err (List Val)
 /-- what may stand in `${…}`, `py:content`, `py:replace`: an expression or a macro call -/
 inductive XExpr where
   | pure (e : Expr)
-  | call (f : Name) (args : List Expr)
+  | call (f : Expr) (args : List Expr)    -- the callee expression (a name) is evaluated first
   deriving DecidableEq, Repr, Inhabited
 
 inductive Dir where
